@@ -262,8 +262,6 @@ class Gen:
                     i = r.randrange(n); h[1] = list(h[1]); h[1][i] = r.choice([0, 1, 2])
                 elif x < 0.7 and n:
                     h[1] = list(h[1])[:-1]; a = a[:n - 1] + a[n:]
-                elif x < 0.8:
-                    h[2] = [r.choice([0, 1, 3])]
             elif k == "num": h[1] = r.choice([0, 1, 2])
             elif k == "opaque" and a: h[1] = r.choice([LIST, OPTION, ARRAY, h[1]])
             elif k == "struct": h[1] = r.choice([40, 41, 43, 44])
@@ -337,9 +335,10 @@ class Gen:
             base = self.ty(r.choice([1, 2, 3]), 0.35)
             s, t = self.abstract(base, 0.2), self.abstract(base, 0.2)
             x = r.random()
-            if x < 0.15 and sg: s, t = E(sg[0][0]), r.choice(self.tv)
-            elif x < 0.3 and sg: s, t = r.choice(self.tv), E(sg[0][0])
-            elif x < 0.4 and len(sg) > 1: s, t = E(sg[0][0]), E(sg[1][0])
+            tb = [b for b in sg if b[0] % 2 == 0]
+            if x < 0.15 and tb: s, t = E(tb[0][0]), r.choice(self.tv)
+            elif x < 0.3 and tb: s, t = r.choice(self.tv), E(tb[0][0])
+            elif x < 0.4 and len(tb) > 1: s, t = E(tb[0][0]), E(tb[1][0])
         elif shape == "const":
             mk = lambda: opaque(ARRAY, [argT(self.ty(1, 0.3)), argC(self.const(0.5))])
             x = r.random()
